@@ -61,9 +61,31 @@ func (a *AvahiProvider) Start(autoReconnect bool, cb api.MdnsResolveCB) bool {
 	a.mux.Lock()
 	defer a.mux.Unlock()
 
+	a.manualShutdown = false
+
+	return a.start(autoReconnect, cb)
+}
+
+// reconnect to the avahi daemon after it disconnected
+//
+// returns if the connection got established and if the provider was shut down manually
+// in the meantime, in which case nothing is started
+func (a *AvahiProvider) restart(cb api.MdnsResolveCB) (bool, bool) {
+	a.mux.Lock()
+	defer a.mux.Unlock()
+
+	// a manual shutdown must not be reverted by a reconnection attempt
+	if a.manualShutdown {
+		return false, true
+	}
+
+	return a.start(true, cb), false
+}
+
+// connect to the avahi daemon and start browsing, a.mux has to be locked
+func (a *AvahiProvider) start(autoReconnect bool, cb api.MdnsResolveCB) bool {
 	a.autoReconnect = autoReconnect
 	a.resolveCB = cb
-	a.manualShutdown = false
 
 	err := a.avServer.Setup(a.avahiCallback)
 	if err != nil {
@@ -225,18 +247,14 @@ func (a *AvahiProvider) avahiCallback(event avahi.Event) {
 	// the server was shutdown, set it to nil so we don't try to call free functions
 	// on shutting down a currently running resolve
 	cb := a.resolveCB
-	var serviceData *mdnsServiceData
-	if a.mdnsServiceData != nil {
-		serviceData = a.mdnsServiceData
-	}
 	a.mux.Unlock()
 
 	// try to reconnect until successull
-	go a.attemptReconnect(cb, serviceData)
+	go a.attemptReconnect(cb)
 }
 
 // attempt to reconnect to the avahi daemon endlessly
-func (a *AvahiProvider) attemptReconnect(cb api.MdnsResolveCB, serviceData *mdnsServiceData) {
+func (a *AvahiProvider) attemptReconnect(cb api.MdnsResolveCB) {
 	for {
 		a.mux.Lock()
 		isManualShutdown := a.manualShutdown
@@ -247,11 +265,21 @@ func (a *AvahiProvider) attemptReconnect(cb api.MdnsResolveCB, serviceData *mdns
 
 		<-time.After(time.Second)
 
-		if !a.Start(true, cb) {
+		started, isManualShutdown := a.restart(cb)
+		if isManualShutdown {
+			return
+		}
+		if !started {
 			continue
 		}
 
 		logging.Log().Debug("mdns: avahi - reconnected")
+
+		// announce again, if an announcement is active right now and
+		// with the most recently requested data
+		a.mux.Lock()
+		serviceData := a.mdnsServiceData
+		a.mux.Unlock()
 
 		if serviceData != nil {
 			if err := a.Announce(serviceData.Name, serviceData.Port, serviceData.Txt); err != nil {
